@@ -15,7 +15,7 @@ import ast
 
 from ..cfg import cfg_of
 from ..dataflow import all_def_values, depends_on
-from ..effects import classify_call
+from ..effects import ceval, classify_call
 from ..model import AnalysisError, ClassInfo, FuncInfo, dotted, norm_stmt, unparse, walk_no_nested
 from . import c18
 from .common import QUICK, calls_in, is_sentinel_put, kwarg, parents_map
@@ -72,34 +72,79 @@ def rule_r2(prog, res) -> None:
         raise AnalysisError("C02.R2: DataChunkInfo.to_bytes/from_bytes vanished")
     res.touch(tb)
     res.touch(fb)
-    wbits: dict[str, int] = {}
-    for x in walk_no_nested(tb.node):
-        if isinstance(x, ast.BinOp) and isinstance(x.op, ast.LShift) and isinstance(x.right, ast.Constant):
-            if isinstance(x.left, ast.Attribute) and isinstance(x.left.value, ast.Name) and x.left.value.id == "self":
-                wbits[x.left.attr] = x.right.value
-            elif isinstance(x.left, ast.Constant) and x.left.value is True:
-                wbits[f"<always:{x.right.value}>"] = x.right.value
-    rbits: dict[str, int] = {}
-    for c in calls_in(fb):
-        for k in c.keywords:
-            if k.arg and k.arg.startswith("has_"):
-                for y in ast.walk(k.value):
-                    if isinstance(y, ast.BinOp) and isinstance(y.op, ast.LShift) and isinstance(y.left, ast.Constant) and y.left.value == 1 and isinstance(y.right, ast.Constant):
-                        rbits[k.arg] = y.right.value
-    flags = {a: b for a, b in wbits.items() if not a.startswith("<")}
-    if not flags or set(flags) != set(rbits):
-        res.violation("C02.R2", fb, fb.node, f"flag attributes written {sorted(flags)} and decoded {sorted(rbits)} differ", key_extra="flag-set")
-    else:
-        bad = [a for a in flags if flags[a] != rbits[a]]
-        dup = len(set(wbits.values())) != len(wbits)
-        expect = {f"has_{a}": order.index(a) for a in order if f"has_{a}" in flags}
-        off = [a for a in flags if a in expect and flags[a] != expect[a]]
-        if bad or dup:
-            res.violation("C02.R2", fb, fb.node, f"bit positions of {bad or 'two flags'} differ between to_bytes and from_bytes (or collide): a stored patch is decoded with the wrong columns", key_extra="flag-bits")
-        elif off:
-            res.violation("C02.R2", tb, tb.node, f"bit positions of {off} do not follow ATTR_ORDER", key_extra="flag-bits-order")
+    # The two tables are folded for every combination of the flags (finite-domain constant folding on the symbolic
+    # store: loops over the module's literal tuples are unrolled, closures and helpers looked through): the byte
+    # written for a combination, decoded by from_bytes, must give the same combination, and the bit of each column
+    # must be its position in ATTR_ORDER.
+    import itertools
+
+    from .. import symx
+    from ..effects import module_const_env
+
+    flags = [f for f in info.class_ann if f.startswith("has_")]
+    if not flags:
+        flags = [f"has_{a}" for a in order[2:]]
+    cenv = module_const_env(prog, info.module)
+    bparam = fb.param_names()[1]
+    pol = symx.inline_private_helpers(prog)
+    n_ok = 0
+    first_bad = None
+    for combo in itertools.product((False, True), repeat=len(flags)):
+        env = dict(cenv)
+        env.update({f"self.{f}": v for f, v in zip(flags, combo)})
+
+        def oracle(e, env=env):
+            try:
+                return bool(ceval(e, env))
+            except Exception:  # noqa: BLE001
+                return None
+
+        wp = [p for p in symx.explore(prog, tb, oracle=oracle, inline=pol) if p.outcome == "return" and p.value is not None]
+        try:
+            written = {ceval(p.value, env) for p in wp}
+        except Exception as err:  # noqa: BLE001
+            raise AnalysisError(f"C02.R2: cannot fold DataChunkInfo.to_bytes for {dict(zip(flags, combo))} ({err})") from None
+        if len(written) != 1 or not isinstance(next(iter(written)), (bytes, bytearray)):
+            raise AnalysisError(f"C02.R2: DataChunkInfo.to_bytes does not fold to one byte string for {dict(zip(flags, combo))}")
+        byte = next(iter(written))
+        want = (1 << 0) | (1 << 1)
+        for f, v in zip(flags, combo):
+            if f[4:] in order and v:
+                want |= 1 << order.index(f[4:])
+        renv = dict(cenv)
+        renv[bparam] = bytes(byte)
+
+        def roracle(e, renv=renv):
+            try:
+                return bool(ceval(e, renv))
+            except Exception:  # noqa: BLE001
+                return None
+
+        rp = [p for p in symx.explore(prog, fb, oracle=roracle, inline=pol) if p.outcome == "return" and isinstance(p.value, ast.Call)]
+        decoded = None
+        for p in rp:
+            try:
+                kw = {k.arg: bool(ceval(k.value, renv)) for k in p.value.keywords if k.arg}
+                for fname, a_ in zip(list(info.class_ann), p.value.args):
+                    kw[fname] = bool(ceval(a_, renv))
+            except Exception as err:  # noqa: BLE001
+                raise AnalysisError(f"C02.R2: cannot fold DataChunkInfo.from_bytes ({err})") from None
+            decoded = kw
+        if decoded is None:
+            raise AnalysisError("C02.R2: DataChunkInfo.from_bytes does not return a constructed instance")
+        got = tuple(decoded.get(f, False) for f in flags)
+        if len(byte) != 1:
+            first_bad = first_bad or (tb, f"{dict(zip(flags, combo))} is written as {len(byte)} bytes, the reader takes exactly one", "flag-width")
+        elif got != combo:
+            first_bad = first_bad or (fb, f"the flags {dict(zip(flags, combo))} are written as {byte!r} and decoded as {dict(zip(flags, got))}: a stored patch is decoded with the wrong columns", "flag-bits")
+        elif int.from_bytes(byte, "big") != want:
+            first_bad = first_bad or (tb, f"the flags {dict(zip(flags, combo))} are written as {int.from_bytes(byte, 'big'):#07b}, bit positions following ATTR_ORDER give {want:#07b}", "flag-bits-order")
         else:
-            res.ok("C02.R2", res.site(tb, "flag bits"), f"to_bytes and from_bytes agree on {flags}")
+            n_ok += 1
+    if first_bad is not None:
+        res.violation("C02.R2", first_bad[0], first_bad[0].node, first_bad[1], key_extra=first_bad[2])
+    else:
+        res.ok("C02.R2", res.site(tb, "flag bits"), f"to_bytes -> from_bytes is the identity on all {n_ok} flag combinations and every bit is the column's position in ATTR_ORDER")
     # zip(ATTR_ORDER, <tuple>) pairings
     nzip = 0
     for fi in prog.funcs:
@@ -142,38 +187,77 @@ def rule_r2(prog, res) -> None:
                 res.ok("C02.R2", res.site(fi, norm_stmt(c)), f"tuple has {len(order)} entries and {len(pair_ok) + 2} attribute positions verified against ATTR_ORDER")
     if nzip < 2:
         raise AnalysisError(f"C02.R2: only {nzip} zip(ATTR_ORDER, …) sites found, minimum 2")
-    # get_list / dtypes
+    # get_list / dtypes: folded for every flag combination against ATTR_ORDER filtered by the flags
     gl = info.methods.get("get_list")
     if gl is None:
         raise AnalysisError("C02.R2: DataChunkInfo.get_list vanished")
     res.touch(gl)
-    txt = unparse(gl.node)
-    if "ATTR_ORDER[:2]" in txt and "ATTR_ORDER[2:]" in txt and 'f"has_{attr}"' in txt.replace("'", '"'):
-        res.ok("C02.R2", res.site(gl), "column list = first two of ATTR_ORDER plus the flagged rest, in ATTR_ORDER order")
+    bad_list = None
+    for combo in itertools.product((False, True), repeat=len(flags)):
+        env = dict(cenv)
+        env.update({f"self.{f}": v for f, v in zip(flags, combo)})
+
+        def goracle(e, env=env):
+            try:
+                return bool(ceval(e, env))
+            except Exception:  # noqa: BLE001
+                return None
+
+        gp = [p for p in symx.explore(prog, gl, oracle=goracle, inline=pol) if p.outcome == "return" and p.value is not None]
+        try:
+            got = {tuple(ceval(p.value, env)) for p in gp}
+        except Exception as err:  # noqa: BLE001
+            raise AnalysisError(f"C02.R2: DataChunkInfo.get_list is written in an unrecognised way (cannot fold it for {dict(zip(flags, combo))}: {err})") from None
+        want = tuple(a_ for a_ in order if f"has_{a_}" not in flags or dict(zip(flags, combo))[f"has_{a_}"])
+        if got != {want}:
+            bad_list = bad_list or (dict(zip(flags, combo)), sorted(got), want)
+    if bad_list is None:
+        res.ok("C02.R2", res.site(gl), "column list = the columns of ATTR_ORDER that are present, in ATTR_ORDER order (all flag combinations)")
     else:
-        slices = [unparse(x) for x in ast.walk(gl.node) if isinstance(x, ast.Subscript) and "ATTR_ORDER" in unparse(x)]
-        if slices and sorted(slices) != ["ATTR_ORDER[2:]", "ATTR_ORDER[:2]"]:
-            res.violation("C02.R2", gl, gl.node, f"column list is not derived as ATTR_ORDER[:2] + flagged ATTR_ORDER[2:] (found {slices})", key_extra="get-list")
-        else:
-            raise AnalysisError("C02.R2: DataChunkInfo.get_list is written in an unrecognised way")
+        res.violation("C02.R2", gl, gl.node, f"for {bad_list[0]} the column list is {bad_list[1]}, the stored columns are {list(bad_list[2])} (ATTR_ORDER filtered by the flags)", key_extra="get-list")
     gad = prog.func("get_array_dtype")
     rpd = prog.func("read_patch_data")
     res.touch(gad)
     res.touch(rpd)
-    wtype = next((v.value.value for v in walk_no_nested(gad.node) if isinstance(v, ast.Assign) and any(isinstance(t, ast.Name) and t.id == "default_type" for t in v.targets) and isinstance(v.value, ast.Constant)), None)
-    rtypes = [e.elts[1].value for x in walk_no_nested(rpd.node) if isinstance(x, ast.ListComp) for e in [x.elt] if isinstance(e, ast.Tuple) and len(e.elts) == 2 and isinstance(e.elts[1], ast.Constant)]
-    uses_list = any(isinstance(c.func, ast.Attribute) and c.func.attr == "get_list" for c in calls_in(rpd))
-    if wtype is not None and rtypes == [wtype] and uses_list:
-        res.ok("C02.R2", res.site(rpd, "dtype"), f"reader dtype ({rtypes[0]}) over get_list() matches the writer's default field type")
+    # element type: what the writer allocates for an ordinary column vs. what the reader views the bytes as
+    genv = module_const_env(prog, gad.module)
+    wtypes = set()
+    for p in symx.explore(prog, gad, inline=pol):
+        for x in [ev.expr for ev in p.calls("get")] + ([p.value] if p.value is not None else []):
+            for y in ast.walk(x):
+                if isinstance(y, ast.Call) and isinstance(y.func, ast.Attribute) and y.func.attr == "get" and len(y.args) == 2:
+                    try:
+                        wtypes.add(ceval(y.args[1], genv))
+                    except Exception:  # noqa: BLE001
+                        pass
+    renv2 = module_const_env(prog, rpd.module)
+    rtypes = set()
+    uses_list = False
+    for p in symx.explore(prog, rpd, inline=pol):
+        exprs = [ev.expr for ev in p.events if ev.expr is not None] + ([p.value] if p.value is not None else [])
+        for x in exprs:
+            for y in ast.walk(x):
+                if isinstance(y, ast.Tuple) and len(y.elts) == 2:
+                    try:
+                        t2 = ceval(y.elts[1], renv2)
+                    except Exception:  # noqa: BLE001
+                        continue
+                    if isinstance(t2, str) and len(t2) <= 3 and t2[:1] in "fiu<>=":
+                        rtypes.add(t2)
+                if isinstance(y, ast.Call) and isinstance(y.func, ast.Attribute) and y.func.attr == "get_list":
+                    uses_list = True
+    if len(wtypes) == 1 and rtypes == wtypes and uses_list:
+        res.ok("C02.R2", res.site(rpd, "dtype"), f"reader dtype ({sorted(rtypes)[0]}) over get_list() matches the writer's default field type")
     else:
-        res.violation("C02.R2", rpd, rpd.node, f"patch data are read back with element type {rtypes} / column list not from get_list(), writer uses {wtype!r}", key_extra="dtype-mismatch")
+        res.violation("C02.R2", rpd, rpd.node, f"patch data are read back with element type {sorted(rtypes)} / column list {'from' if uses_list else 'not from'} get_list(), writer uses {sorted(wtypes)}", key_extra="dtype-mismatch")
     # header byte: written first, read first
     pw = prog.find_class("PatchWriter")
     init = pw.methods["__init__"]
     res.touch(init)
-    hdr = [c for c in calls_in(init) if isinstance(c.func, ast.Attribute) and c.func.attr == "write"]
-    ok_hdr = hdr and all(depends_on(init.node, c.args[0], lambda x: isinstance(x, ast.Call) and isinstance(x.func, ast.Attribute) and x.func.attr == "to_bytes") for c in hdr if c.args)
-    rd_first = [c for c in calls_in(rpd) if isinstance(c.func, ast.Attribute) and c.func.attr == "read" and c.args and isinstance(c.args[0], ast.Constant) and c.args[0].value == 1]
+    wr = [ev for p in symx.explore(prog, init, inline=symx.inline_private_helpers(prog, public={"to_bytes"})) if p.outcome != "raise" for ev in p.calls("write")]
+    ok_hdr = bool(wr) and all(ev.expr.args and symx.calls_named(ev.expr.args[0], "to_bytes") for ev in wr)
+    rd = [ev for p in symx.explore(prog, rpd, inline=pol) for ev in p.calls("read")]
+    rd_first = bool(rd) and all(ev.expr.args and isinstance(ev.expr.args[0], ast.Constant) and ev.expr.args[0].value == 1 for ev in rd)
     if ok_hdr and rd_first:
         res.ok("C02.R2", res.site(init, "header"), "one header byte (to_bytes) written at creation, one byte read back before the records")
     else:
